@@ -26,6 +26,7 @@ import (
 	"bytes"
 	"cmp"
 	"encoding/json"
+	"errors"
 	"fmt"
 	"io/fs"
 	"log"
@@ -34,6 +35,7 @@ import (
 	"os"
 	"path/filepath"
 	"strings"
+	"syscall"
 	"testing"
 
 	"golang.org/x/mod/module"
@@ -310,9 +312,17 @@ func (srv *Server) readArchive(path, vers string) *txtar.Archive {
 	txtarName := name + ".txtar"
 	a := srv.archiveCache.Do(name, func() any {
 		a, err := txtar.ParseFile(txtarName)
+		if errors.Is(err, syscall.ENAMETOOLONG) {
+			// A name that is too long only with the extension added
+			// names no archive; a shorter one may still be there.
+			err = fs.ErrNotExist
+		}
 		if os.IsNotExist(err) {
 			// fall back to trying with the .txt extension
 			a, err = txtar.ParseFile(txtName)
+			if errors.Is(err, syscall.ENAMETOOLONG) {
+				err = fs.ErrNotExist
+			}
 		}
 		if os.IsNotExist(err) {
 			// fall back to trying a directory
